@@ -6,8 +6,10 @@ import (
 	"sort"
 	"strings"
 	"testing"
+	"time"
 
 	"github.com/hydraide/hydraide/app/core/settings"
+	"github.com/hydraide/hydraide/app/core/settings/setting"
 	"github.com/hydraide/hydraide/app/name"
 	"github.com/hydraide/hydraide/app/vshim/vmap"
 	"github.com/hydraide/hydraide/app/vshim/vos"
@@ -69,7 +71,7 @@ func TestC21(t *testing.T) {
 	r := kit.Start("C21", "exploration")
 	defer r.Finish()
 	lookups := []string{"s/r/w", "s/r/x", "s/q/w", "s/q/x", "t/a/b", "u/a/b"}
-	r.Rule = "every non-empty subset of the patterns " + fmt.Sprint(c21patterns) + " registered with pairwise distinct settings (idle timeout = 100+index s, in-memory for odd indexes) x every registration order x optional re-registration of the first pattern with new settings, or deregistration of one pattern after every name has been looked up once; for each resulting configuration every lookup of " + fmt.Sprint(lookups) + " is evaluated under EVERY iteration order of the settings' internal pattern map (all permutations; the range statement in GetBySwampName is rewritten to an owned iterator), and again on a fresh settings object loaded from the persisted settings file (restart), again under every iteration order. Oracle: one answer per (set of registered patterns, name) whatever the registration order, iteration order or restart; it is the registered setting of a most specific matching pattern (exact realm+swamp > one wildcard > two wildcards), the default when nothing matches. Non-trivial = lookups with at least two matching patterns"
+	r.Rule = "every non-empty subset of the patterns " + fmt.Sprint(c21patterns) + " registered with pairwise distinct settings (idle timeout = 100+index s, in-memory for odd indexes) x every registration order x optional re-registration of the first pattern with new settings (other swamp type, idle timeout and write interval), or deregistration of one pattern after every name has been looked up once; for each resulting configuration every lookup of " + fmt.Sprint(lookups) + " is evaluated under EVERY iteration order of the settings' internal pattern map (all permutations; the range statement in GetBySwampName is rewritten to an owned iterator), and again on a fresh settings object loaded from the persisted settings file (restart), again under every iteration order. Oracle: one answer per (set of registered patterns, name) whatever the registration order, iteration order or restart; it carries the values of the latest registration of a most specific matching pattern (exact realm+swamp > one wildcard > two wildcards), the default when nothing matches. Non-trivial = lookups with at least two matching patterns"
 	r.Assumptions = []string{"between two patterns with one wildcard each (s/r/* vs s/*/w) the property states no order: any answer is accepted as long as it is the same under every order and after restart"}
 	type cfg struct {
 		order []int // indexes into c21patterns, in registration order
@@ -115,14 +117,23 @@ func TestC21(t *testing.T) {
 		vmap.Perm = nil
 		s := settings.New(2, 100)
 		idle := func(i int) int64 { return int64(100 + i) }
-		for _, pi := range c.order {
-			s.RegisterPattern(c21load(c21patterns[pi]), pi%2 == 1, idle(pi), &settings.FileSystemSettings{WriteIntervalSec: int64(1 + pi), MaxFileSizeByte: 8192})
+		// registered[pattern] = the values of its LATEST registration, as the answers print them
+		registered := map[string]string{}
+		register := func(pi int, inMem bool, idleSec, writeSec int64) {
+			s.RegisterPattern(c21load(c21patterns[pi]), inMem, idleSec, &settings.FileSystemSettings{WriteIntervalSec: writeSec, MaxFileSizeByte: 8192})
+			if inMem {
+				registered[c21patterns[pi]] = fmt.Sprintf("idle=%v inmem=%v", time.Duration(idleSec)*time.Second, setting.InMemorySwamp)
+			} else {
+				registered[c21patterns[pi]] = fmt.Sprintf("idle=%v inmem=%v write=%v", time.Duration(idleSec)*time.Second, setting.PermanentSwamp, time.Duration(writeSec)*time.Second)
+			}
 		}
-		reIdle := map[int]int64{}
+		for _, pi := range c.order {
+			register(pi, pi%2 == 1, idle(pi), int64(1+pi))
+		}
 		if c.rereg {
+			// every value changes, the swamp type included
 			pi := c.order[0]
-			reIdle[pi] = 900
-			s.RegisterPattern(c21load(c21patterns[pi]), pi%2 == 1, 900, &settings.FileSystemSettings{WriteIntervalSec: int64(1 + pi), MaxFileSizeByte: 8192})
+			register(pi, pi%2 != 1, 900, int64(50+pi))
 		}
 		if c.dereg >= 0 {
 			for _, ln := range lookups {
@@ -189,6 +200,13 @@ func TestC21(t *testing.T) {
 					if !c21matches(got, ln) || !inList(names(c.order), got) {
 						r.Fail("resolve", "answer-is-not-a-matching-registered-pattern", fmt.Sprintf("lookup %s with patterns %v answers %s", ln, names(c.order), a), cs)
 						continue
+					}
+					if want := registered[got]; !strings.Contains(a, want) {
+						d := "values-differ-from-the-latest-registration"
+						if on == "restarted" {
+							d += ":after-restart"
+						}
+						r.Fail("resolve", d, fmt.Sprintf("lookup %s with patterns %v (registration order %v, first re-registered %v, %s object): %s, but pattern %s was last registered with %s", ln, names(sorted), names(c.order), c.rereg, on, a, got, want), cs)
 					}
 					if c21spec(got) < best {
 						d := "less-specific-pattern-wins"
